@@ -535,6 +535,9 @@ func extractAddressInfos(pkScript []byte) (scriptClass txscript.ScriptClass, rec
 		recipient = std.EncodeAddress()
 		staking = addrs[0].EncodeAddress()
 	case txscript.BindingScriptHashTy:
+		if len(addrs) < 2 {
+			return 0, "", "", "", 0, fmt.Errorf("no binding target parsed from output script")
+		}
 		targetType := "MASS"
 		targetSize := 0
 		if len(addrs[1].ScriptAddress()) == 22 {
